@@ -96,10 +96,12 @@ func (idx *BlockerIndexer) Search(ctx context.Context, q *query.Query) ([]int64,
 		return nil, fmt.Errorf("failed to parse query conditions: %w", err)
 	}
 
-	// If there is an exact height query, return the result immediately
-	// (if it exists).
+	// If the query is nothing but an exact height query, return the result
+	// immediately (if it exists). Next to other conditions, a height condition
+	// is evaluated like every other condition (see below): all conditions of a
+	// query have to hold (implicit AND operand).
 	height, ok := lookForHeight(conditions)
-	if ok {
+	if ok && len(conditions) == 1 {
 		ok, err := idx.Has(height)
 		if err != nil {
 			return nil, err
@@ -158,7 +160,13 @@ func (idx *BlockerIndexer) Search(ctx context.Context, q *query.Query) ([]int64,
 			continue
 		}
 
-		startKey, err := orderedcode.Append(nil, c.CompositeKey, fmt.Sprintf("%v", c.Operand))
+		var startKey []byte
+		if h, isInt := c.Operand.(int64); isInt && c.CompositeKey == types.BlockHeightKey && c.Op == query.OpEqual {
+			// the primary key holds the height as an integer, not as a string
+			startKey, err = heightKey(h)
+		} else {
+			startKey, err = orderedcode.Append(nil, c.CompositeKey, fmt.Sprintf("%v", c.Operand))
+		}
 		if err != nil {
 			return nil, err
 		}
